@@ -24,8 +24,11 @@ Inductive case :=
 | CaseB (m : method) (mp : list (Z * Z)) (ps : list (pool sidc)) (cs : list cand) (ch : choice)
         (obs : list Z)                                  (* node ids of the proposed command(s), in order *)
 | CaseV (m : method) (mp : list (Z * Z)) (prop cur : list cand) (obs : list Z)
-| CaseR (s0 : sys sidc) (ops : list (op sidc * list Z)).
-        (* per op: the node ids the real queue newly holds after it *)
+| CaseR (s0 : sys sidc) (ops : list (op sidc * list Z * list (Z * Z) * (reason * list (Z * Z)))).
+        (* per op: the node ids the real queue newly holds after it, and (for a disrupt call that got
+           as far as ComputeCommands) the budget mapping the controller built, per listed pool; last,
+           the mapping BuildDisruptionBudgetMapping yields on the real cluster AFTER the op, for a
+           reason the harness picked *)
 
 Definition opt_bool_eqb (a b : option bool) : bool :=
   match a, b with
@@ -167,26 +170,42 @@ Definition round_oracle (sv : sys sidc) (r : reason) (newq : list Z) : bool :=
    code, so the trace is validated step by step: the implementation's selection must be one the
    model allows (same number per pool, only eligible candidates of the validation state), and the
    model continues from the implementation's choice. *)
-Fixpoint checkR (s : sys sidc) (ops : list (op sidc * list Z)) : bool * bool :=
+Definition post_ok (s' : sys sidc) (post : reason * list (Z * Z)) : bool * bool :=
+  let r := fst post in
+  (forallb (fun pv => snd pv =? mapping_of sidc nextc s' r (fst pv)) (snd post),
+   forallb (fun pv => match find_pool (s_pools s') (fst pv) with
+                      | Some pl => mapping_ok_b sidc lastc (s_now s') r (s_nodes s') pl (snd pv)
+                      | None => snd pv =? 0
+                      end) (snd post)).
+
+Fixpoint checkR (s : sys sidc) (ops : list (op sidc * list Z * list (Z * Z) * (reason * list (Z * Z)))) : bool * bool :=
   match ops with
   | [] => (true, true)
-  | (o, newq) :: t =>
+  | (o, newq, mpobs, post) :: t =>
       match o with
       | ODisrupt m cs ch vok b1 c1 b2 c2 startfail =>
           let '(sel0, sv) := disrupt_sel sidc nextc s m cs ch vok b1 c1 b2 c2 in
           let sel := filter (fun c => negb (existsb (Z.eqb (c_node c)) startfail)) sel0 in
           let pool_of i := match find_node sv i with Some x => n_pool x | None => -1 end in
-          let corr :=
+          (* the mapping handed to the method: equal to the model's, and sound for the state it was built from *)
+          let mcorr := forallb (fun pv => snd pv =? mapping_of sidc nextc s (method_reason m) (fst pv)) mpobs in
+          let morc := forallb (fun pv => match find_pool (s_pools s) (fst pv) with
+                                         | Some pl => mapping_ok_b sidc lastc (s_now s) (method_reason m) (s_nodes s) pl (snd pv)
+                                         | None => snd pv =? 0
+                                         end) mpobs in
+          let corr := mcorr &&
             list_eqb Z.eqb (sort_z (map pool_of newq)) (sort_z (map pool_of (ids sel))) &&
             forallb (fun i => match find_node sv i with Some x => eligible sv x | None => false end) newq &&
             nodup_ids newq in
-          let orc := round_oracle sv (method_reason m) newq in
+          let orc := morc && round_oracle sv (method_reason m) newq in
           let s' := start_command sv (map (fun i => mkCand i (pool_of i) false false false) newq) in
-          let '(c, r) := checkR s' t in (corr && c, orc && r)
+          let '(pc, po) := post_ok s' post in
+          let '(c, r) := checkR s' t in (corr && pc && c, orc && po && r)
       | _ =>
           let s' := step sidc nextc s o in
           let ok := match newq with [] => true | _ => false end in
-          let '(c, r) := checkR s' t in (ok && c, ok && r)
+          let '(pc, po) := post_ok s' post in
+          let '(c, r) := checkR s' t in (ok && pc && c, ok && po && r)
       end
   end.
 
